@@ -56,7 +56,24 @@ def judge(patch, pids, tier="quick", verbose=True):
     return res
 
 
+def update(name, pids):
+    """re-judge a kept seeded change and record the result in its meta.json"""
+    d = os.path.join(ROOT, "seeded", name)
+    meta = json.load(open(os.path.join(d, "meta.json")))
+    res = judge(os.path.join(d, "patch.diff"), pids)
+    if res is None:
+        return 2
+    meta.setdefault("check_results", {}).update(res)
+    meta["detected_by"] = sorted(p for p, r in meta["check_results"].items() if r["exit"] == 1)
+    meta.setdefault("ran", []).extend(f"./check {p} --tier quick with change (re-judged): exit {r['exit']}, {r['violation_lines']} VIOLATION lines"
+                                      for p, r in res.items())
+    json.dump(meta, open(os.path.join(d, "meta.json"), "w"), indent=1)
+    return 0
+
+
 def main():
+    if sys.argv[1] == "--update":
+        return update(sys.argv[2], sys.argv[3:])
     if sys.argv[1] == "--all":
         bad = 0
         for name in sorted(os.listdir(os.path.join(ROOT, "seeded"))):
